@@ -11,8 +11,11 @@
 package main
 
 import (
+	"bytes"
+	"crypto/subtle"
 	"fmt"
 	"math/big"
+	"time"
 
 	"golang.org/x/crypto/poly1305"
 	"verif/ref/polyref"
@@ -101,13 +104,62 @@ type writer interface {
 	Sum([]byte) []byte
 }
 
-func feed(w writer, msg []byte, cuts []int) {
+// feed writes msg in the given chunks. Every chunk is handed over as a private copy that is
+// overwritten as soon as Write has returned (the caller owns its buffers); after, if not nil, is
+// called after every Write. sp is the reusable storage for those copies (fresh big allocations
+// are expensive).
+var ones = bytes.Repeat([]byte{0xFF}, 8192)
+
+const directAbove = 1 << 17
+
+func feed(w writer, msg []byte, cuts []int, after func(), sp *[]byte) {
+	put := func(chunk []byte) {
+		if len(chunk) > directAbove {
+			// long family: very long chunks are written directly (no private copy: fresh memory is
+			// expensive here); the copy-and-overwrite dimension is exercised by every shorter chunk
+			w.Write(chunk)
+			if after != nil {
+				after()
+			}
+			return
+		}
+		scratch := append((*sp)[:0], chunk...)
+		*sp = scratch
+		w.Write(scratch)
+		for o := 0; o < len(scratch); o += len(ones) {
+			e := min(o+len(ones), len(scratch))
+			subtle.XORBytes(scratch[o:e], scratch[o:e], ones[:e-o])
+		}
+		if after != nil {
+			after()
+		}
+	}
 	prev := 0
 	for _, c := range cuts {
-		w.Write(msg[prev:c])
+		put(msg[prev:c])
 		prev = c
 	}
-	w.Write(msg[prev:])
+	put(msg[prev:])
+}
+
+// newMAC / newGenericMAC: the key array handed to the constructor is a private copy that is
+// overwritten as soon as the constructor has returned.
+func newMAC(key *[32]byte) *poly1305.MAC {
+	k := *key
+	m := poly1305.New(&k)
+	for i := range k {
+		k[i] ^= 0xFF
+	}
+	return m
+}
+
+func newGenericMAC(key *[32]byte) *poly1305.VerifC04GenericMAC {
+	k := *key
+	m := poly1305.VerifC04NewGenericMAC(&k)
+	for i := range k {
+		k[i] ^= 0xFF
+	}
+	return m
 }
 
 func run(c *vf.Ctx) {
@@ -118,6 +170,8 @@ func run(c *vf.Ctx) {
 	c.Rule(fmt.Sprintf("full grid key classes {RFC key, r=ff..ff (clamped max) with s=2^128-1 and s=0, r=0, r=1 (s=0, s=2^128-1), r=2, r=4, r=top-limb-only, seeded} x message patterns {00, ff, fb ff.., ascending, seeded} x every length 0..%d and 4095,4096 "+
 		"x chunkings {one-shot Sum, single Write, per byte, EVERY two-way split, EVERY three-way split for length<=48, strides 15/16/17} x path {assembly update (public API), portable (hook)}; "+
 		"plus per key class messages solved with math/big to end at accumulator value 0..4 (mod p) after 2,3,4,16,17,18 blocks, and r in {1,2,4} x ff-block families reaching p..p+4 and >= 2^130; "+
+		"every MAC gets its key as a private copy that is overwritten after the constructor returned, every Write chunk is a private copy overwritten after the call; after the first Sum the returned slice is overwritten and Sum is repeated into a buffer with spare capacity holding old bytes, then Verify must still accept; on the portable MAC a Sum after EVERY Write must not change the final tag; "+
+		"plus the LONG family: lengths 2^k+{-1,0,1,15,16,17} for k=9..22 (4 MiB) x (key class, pattern) pairs {(RFC key, seeded), (clamped-max r, ff)} (thorough: 5 key classes x 2 patterns) x {Sum, sumGeneric, Verify of the tag / of a one-bit-flipped tag, and on both MAC paths: single Write, Writes of 4093 bytes, Writes of 65537 bytes, two Writes split at 1,15,16,17, 2^j-1 and 2^j+1 (j=6,12,16,20), n-17, n-16, n-1}; "+
 		"Verify / MAC.Verify must accept the model tag and reject all 128 single-bit flips and wrong-length tags; non-trivial = distinct (key class, message, chunking family) with >= 2 writes, or a message whose final accumulator is >= p; oracle = verif/ref/polyref (math/big)", maxAll))
 	c.Assume("math/big arithmetic is correct; key values outside the alphabet are not enumerated (carry classes are targeted, not exhausted)")
 
@@ -251,6 +305,10 @@ func run(c *vf.Ctx) {
 			}
 		}
 	}
+	tl := time.Now()
+	longN := 1<<longKMax + 17
+	longFamily(c, kcs, map[string][]byte{"ff": rep(0xff, longN), "seeded": c.Bytes("c04-long-msg", 0, longN)}, longN)
+	c.Set("long_family_seconds", time.Since(tl).Seconds())
 	c.Set("solved_messages", solved)
 	c.Set("cases", len(cases))
 
@@ -283,7 +341,7 @@ func run(c *vf.Ctx) {
 			fail("generic path: sumGeneric != definition", map[string]any{"got": fmt.Sprintf("%x", got)})
 		}
 		// final-reduction class (read from the portable state; classification only)
-		g := poly1305.VerifC04NewGenericMAC(&key)
+		g := newGenericMAC(&key)
 		g.Write(msg)
 		hc := hClass(g.VerifC04FinalH())
 		c.Outcome(hc)
@@ -294,20 +352,60 @@ func run(c *vf.Ctx) {
 		// every chunking on both paths
 		pfx := []byte{0xAA, 0xBB, 0xCC}
 		seenShape := map[string]bool{}
+		var spare [40]byte
+		scratch := make([]byte, 0, len(msg))
 		chunkings(len(msg), func(name string, cuts []int) {
-			a := poly1305.New(&key)
-			feed(a, msg, cuts)
+			a := newMAC(&key)
+			feed(a, msg, cuts, nil, &scratch)
 			out := a.Sum(pfx[:3:3])
 			evals++
 			if len(out) != 19 || out[0] != 0xAA || out[1] != 0xBB || out[2] != 0xCC || [16]byte(out[3:]) != want {
 				fail("asm path: MAC.Write/Sum != definition ("+name+")", map[string]any{"cuts": cuts, "got": fmt.Sprintf("%x", out)})
 			}
-			gm := poly1305.VerifC04NewGenericMAC(&key)
-			feed(gm, msg, cuts)
+			// the returned slice is the caller's: overwrite it, then Sum again, now into a buffer that
+			// has spare capacity holding old bytes; the object must still give the tag, and Verify
+			// after Sum must accept it
+			for i := range out {
+				out[i] ^= 0xFF
+			}
+			for i := range spare {
+				spare[i] = 0xEE
+			}
+			copy(spare[:], pfx)
+			out = a.Sum(spare[:3])
+			evals++
+			if len(out) != 19 || out[0] != 0xAA || out[1] != 0xBB || out[2] != 0xCC || [16]byte(out[3:]) != want {
+				fail("asm path: second MAC.Sum (into spare capacity) != definition ("+name+")", map[string]any{"cuts": cuts, "got": fmt.Sprintf("%x", out)})
+			}
+			for i := range out {
+				out[i] ^= 0xFF
+			}
+			evals++
+			if !a.Verify(want[:]) {
+				fail("asm path: MAC.Verify after Sum rejects the correct tag ("+name+")", map[string]any{"cuts": cuts})
+			}
+			gm := newGenericMAC(&key)
+			feed(gm, msg, cuts, nil, &scratch)
 			out = gm.Sum(nil)
 			evals++
 			if len(out) != 16 || [16]byte(out) != want {
 				fail("generic path: macGeneric.Write/Sum != definition ("+name+")", map[string]any{"cuts": cuts, "got": fmt.Sprintf("%x", out)})
+			}
+			out = gm.Sum(out[:0])
+			evals++
+			if len(out) != 16 || [16]byte(out) != want {
+				fail("generic path: second macGeneric.Sum != definition ("+name+")", map[string]any{"cuts": cuts, "got": fmt.Sprintf("%x", out)})
+			}
+			// non-initial state on the portable MAC (its Sum does not finalize): a Sum after every
+			// Write must not disturb the final tag
+			if len(cuts) > 0 && name != "per-byte" || len(msg) <= 64 {
+				g2 := newGenericMAC(&key)
+				feed(g2, msg, cuts, func() { g2.Sum(nil) }, &scratch)
+				out = g2.Sum(nil)
+				evals++
+				if len(out) != 16 || [16]byte(out) != want {
+					fail("generic path: macGeneric.Sum between Writes changes the final tag ("+name+")", map[string]any{"cuts": cuts, "got": fmt.Sprintf("%x", out)})
+				}
 			}
 			if len(cuts) > 0 && !seenShape[name] {
 				seenShape[name] = true
@@ -320,7 +418,7 @@ func run(c *vf.Ctx) {
 			fail("Verify rejects the correct tag", nil)
 		}
 		evals++
-		a := poly1305.New(&key)
+		a := newMAC(&key)
 		a.Write(msg)
 		if !a.Verify(want[:]) {
 			fail("MAC.Verify rejects the correct tag", nil)
@@ -335,7 +433,7 @@ func run(c *vf.Ctx) {
 			}
 			// MAC.Verify on the incremental object for a subset of cases (cost)
 			if len(msg) <= 80 || len(msg)%16 == 15 {
-				b := poly1305.New(&key)
+				b := newMAC(&key)
 				b.Write(msg)
 				evals++
 				if b.Verify(bad[:]) {
@@ -344,7 +442,7 @@ func run(c *vf.Ctx) {
 			}
 		}
 		for _, wrong := range [][]byte{want[:15], append(append([]byte(nil), want[:]...), 0), nil} {
-			b := poly1305.New(&key)
+			b := newMAC(&key)
 			b.Write(msg)
 			evals++
 			if b.Verify(wrong) {
